@@ -301,6 +301,39 @@ theorem ttlCheck_packed (x : Reject) (t : Nat) (rest : Bytes) (ttl : Nat) (now :
   · simp [h]
 
 
+theorem ttlCheckFlat_total (x : Reject) (p : Bytes) (ttl : Nat) (now : Int) (h : Token.tsFmtWidth ≤ p.length) :
+    ttlCheckFlat x p ttl now = .ok () ∨ ttlCheckFlat x p ttl now = .reject x := by
+  unfold ttlCheckFlat
+  obtain ⟨n, hn⟩ := unpackFrom_isSome Token.tsFmtWidth p 0 (by omega)
+  rw [hn]; simp only; split
+  · exact Or.inr rfl
+  · exact Or.inl rfl
+
+theorem ttlCheckFlat_packed (x : Reject) (t : Nat) (rest : Bytes) (ttl : Nat) (now : Int) (ht : t < 256 ^ Token.tsFmtWidth) :
+    ttlCheckFlat x (leBytes Token.tsFmtWidth t ++ rest) ttl now
+      = if ttl > 0 ∧ now - (t : Int) > (ttl : Int) then .reject x else .ok () := by
+  unfold ttlCheckFlat
+  have := unpackFrom_pack Token.tsFmtWidth t [] rest ht
+  simp only [List.nil_append, List.length_nil] at this
+  rw [this]
+
+/-- whichever shape the call opener's TTL test has, it behaves the same on plaintexts long enough … -/
+theorem callTtlCheck_total (p : Bytes) (ttl : Nat) (now : Int) (h : Token.tsFmtWidth ≤ p.length) :
+    callTtlCheck p ttl now = .ok () ∨ callTtlCheck p ttl now = .reject .callExpired := by
+  unfold callTtlCheck
+  split
+  · exact ttlCheckFlat_total _ p ttl now h
+  · exact ttlCheck_total _ p ttl now h
+
+/-- … and reads `created_at` back exactly from what the sealers wrote -/
+theorem callTtlCheck_packed (t : Nat) (rest : Bytes) (ttl : Nat) (now : Int) (ht : t < 256 ^ Token.tsFmtWidth) :
+    callTtlCheck (leBytes Token.tsFmtWidth t ++ rest) ttl now
+      = if ttl > 0 ∧ now - (t : Int) > (ttl : Int) then .reject .callExpired else .ok () := by
+  unfold callTtlCheck
+  split
+  · exact ttlCheckFlat_packed _ t rest ttl now ht
+  · exact ttlCheck_packed _ t rest ttl now ht
+
 /-! ## identity -/
 
 theorem utf8_eq_toByteArray (s : List Char) : utf8 s = (String.ofList s).toByteArray.data.toList := by
@@ -532,7 +565,7 @@ theorem openCursorObs_ok {strict : Bool} {z : Zstd} {key : KeyId} {a : Bytes} {t
 theorem openCallObs_ok {strict : Bool} {z : Zstd} {key : KeyId} {a : Bytes} {ttl : Nat} {now : Int} {o : WireObs}
     {x : Bytes × CallBody} (h : openCallObs strict z key a ttl now o = .ok x) :
     ∃ t n sp plain, decodeObs strict o = some t ∧ t = .sealed key a Token.callTokenVersion n sp ∧
-      unpackTagged z sp = .ok plain ∧ unpackCallPlain plain = .ok x ∧ ttlCheck .callExpired plain ttl now = .ok () := by
+      unpackTagged z sp = .ok plain ∧ unpackCallPlain plain = .ok x ∧ callTtlCheck plain ttl now = .ok () := by
   unfold openCallObs at h
   cases hd : decodeObs strict o with
   | none => rw [hd] at h; cases h
@@ -549,7 +582,7 @@ theorem openCallObs_ok {strict : Bool} {z : Zstd} {key : KeyId} {a : Bytes} {ttl
         cases hc : unpackCallPlain plain with
         | ok r =>
           rw [hc] at h; simp only at h
-          cases htl : ttlCheck .callExpired plain ttl now with
+          cases htl : callTtlCheck plain ttl now with
           | ok u =>
             rw [htl] at h; simp only at h
             cases h
@@ -570,6 +603,18 @@ theorem openCallObs_ok {strict : Bool} {z : Zstd} {key : KeyId} {a : Bytes} {ttl
 theorem fresh_of_ttlCheck {x : Reject} {t : Nat} {rest : Bytes} {ttl : Nat} {now : Int} (ht : t < 256 ^ Token.tsFmtWidth)
     (h : ttlCheck x (leBytes Token.tsFmtWidth t ++ rest) ttl now = .ok ()) : Fresh ttl now t := by
   rw [ttlCheck_packed x t rest ttl now ht] at h
+  unfold Fresh
+  by_cases hc : ttl > 0 ∧ now - (t : Int) > (ttl : Int)
+  · rw [if_pos hc] at h; cases h
+  · by_cases h0 : ttl = 0
+    · exact Or.inl h0
+    · right
+      have : ¬ (now - (t : Int) > (ttl : Int)) := fun g => hc ⟨by omega, g⟩
+      omega
+
+theorem fresh_of_callTtlCheck {t : Nat} {rest : Bytes} {ttl : Nat} {now : Int} (ht : t < 256 ^ Token.tsFmtWidth)
+    (h : callTtlCheck (leBytes Token.tsFmtWidth t ++ rest) ttl now = .ok ()) : Fresh ttl now t := by
+  rw [callTtlCheck_packed t rest ttl now ht] at h
   unfold Fresh
   by_cases hc : ttl > 0 ∧ now - (t : Int) > (ttl : Int)
   · rw [if_pos hc] at h; cases h
@@ -650,7 +695,7 @@ theorem openCall_sound {sh : Shape} {E : Wire} {z : Zstd} {srv : Server} {keys :
       cases hu
       rw [unpackCallPlain_pack km.t km.callId km.body w1 w3] at hc
       cases hc
-      exact ⟨hid.1, hid.2, rfl, rfl, fresh_of_ttlCheck w2 htl⟩
+      exact ⟨hid.1, hid.2, rfl, rfl, fresh_of_callTtlCheck w2 htl⟩
 
 
 /-! ## the invariant of the token system -/
@@ -686,85 +731,128 @@ structure SoundFor (sh : Shape) (E : Wire) (z : Zstd) (srv : Server) (r : Req) (
 def Sound (sh : Shape) (E : Wire) (z : Zstd) (srv : Server) (W : World) (r : Req) (acc : Accepted) : Prop :=
   ∃ cm ∈ W.cursors, ∃ km ∈ W.calls, SoundFor sh E z srv r acc cm km
 
-theorem finishRecover_ok {sh : Shape} {D : Decoders} {r : ReqObs} {st cid : Bytes} {e : CacheEntry} {hit : Bool}
+theorem finishRecover_ok {D : Decoders} {st cid : Bytes} {e : CacheEntry} {hit : Bool}
     {effs0 effs : List Effect} {acc : Accepted}
-    (h : finishRecover sh D r st cid e hit effs0 = (effs, .ok acc)) :
-    acc = ⟨st, cid, e, hit⟩ ∧ (sh.methodBound = true → e.method = r.method) := by
+    (h : finishRecover D st cid e hit effs0 = (effs, .ok acc)) : acc = ⟨st, cid, e, hit⟩ := by
   unfold finishRecover at h
-  split at h
-  · simp at h
-  · rename_i hc
-    simp only [Prod.mk.injEq] at h
-    obtain ⟨_, h2⟩ := h
-    split at h2
-    · cases h2
-      refine ⟨rfl, ?_⟩
-      intro hb
-      rw [hb] at hc
-      simpa using hc
-    · cases h2
+  simp only [Prod.mk.injEq] at h
+  obtain ⟨_, h2⟩ := h
+  split at h2
+  · cases h2; rfl
+  · cases h2
+
+theorem resolveCallFromToken_ok {sh : Shape} {z : Zstd} {D : Decoders} {srv : Server} {r : ReqObs} {expected : Bytes}
+    {e : CacheEntry} (h : resolveCallFromToken sh z D srv r expected = .ok e) :
+    ∃ co body, r.call = some co ∧
+      openCallObs sh.strictB64 z srv.key (callAad sh.methodBound r.method r.who) srv.ttl r.now co = .ok (expected, body) ∧
+      e = ⟨r.method, body⟩ := by
+  unfold resolveCallFromToken at h
+  cases hcall : r.call with
+  | none => rw [hcall] at h; cases h
+  | some co =>
+    rw [hcall] at h; simp only at h
+    cases ho : openCallObs sh.strictB64 z srv.key (callAad sh.methodBound r.method r.who) srv.ttl r.now co with
+    | ok y =>
+      obtain ⟨cid', body⟩ := y
+      rw [ho] at h; simp only at h
+      split at h
+      · cases h
+      · rename_i hpair
+        split at h
+        · cases h
+          have : cid' = expected := by simpa using hpair
+          subst this
+          exact ⟨co, body, rfl, ho, rfl⟩
+        · cases h
+    | reject _ => rw [ho] at h; cases h
+    | missingCall => rw [ho] at h; cases h
+    | decodeError => rw [ho] at h; cases h
+    | crash => rw [ho] at h; cases h
+
+/-- the two ways `_unpack_and_recover_state` accepts -/
+theorem recoverObs_ok {sh : Shape} {z : Zstd} {D : Decoders} {srv : Server} {cache : Cache} {r : ReqObs}
+    {effs : List Effect} {acc : Accepted} (h : recoverObs sh z D srv cache r = (effs, .ok acc)) :
+    ∃ st cid, openCursorObs sh.strictB64 z srv.key (aad r.who) srv.ttl r.now r.cursor = .ok (st, cid) ∧
+      ((∃ e, cache cid (cacheIdent r.who) = some e ∧ acc = ⟨st, cid, e, true⟩ ∧
+          (sh.methodBound = true → e.method = r.method) ∧ D.hitTypeDeclared e = true) ∨
+       (cache cid (cacheIdent r.who) = none ∧ ∃ e, resolveCallFromToken sh z D srv r cid = .ok e ∧
+          acc = ⟨st, cid, e, false⟩)) := by
+  unfold recoverObs at h
+  cases hc : openCursorObs sh.strictB64 z srv.key (aad r.who) srv.ttl r.now r.cursor with
+  | ok x =>
+    obtain ⟨st, cid⟩ := x
+    rw [hc] at h; simp only at h
+    refine ⟨st, cid, rfl, ?_⟩
+    cases hl : cache cid (cacheIdent r.who) with
+    | some e =>
+      rw [hl] at h; simp only at h
+      split at h
+      · simp at h
+      · rename_i hmc
+        split at h
+        · simp at h
+        · rename_i htd
+          refine Or.inl ⟨e, rfl, finishRecover_ok h, ?_, by simpa using htd⟩
+          intro hb
+          rw [hb] at hmc
+          simpa using hmc
+    | none =>
+      rw [hl] at h; simp only at h
+      cases hr : resolveCallFromToken sh z D srv r cid with
+      | ok e =>
+        rw [hr] at h; simp only at h
+        exact Or.inr ⟨rfl, e, rfl, finishRecover_ok h⟩
+      | reject _ => rw [hr] at h; simp at h
+      | missingCall => rw [hr] at h; simp at h
+      | decodeError => rw [hr] at h; simp at h
+      | crash => rw [hr] at h; simp at h
+  | reject _ => rw [hc] at h; simp at h
+  | missingCall => rw [hc] at h; simp at h
+  | decodeError => rw [hc] at h; simp at h
+  | crash => rw [hc] at h; simp at h
 
 theorem recover_sound {sh : Shape} {E : Wire} {z : Zstd} {D : Decoders} {srv : Server} {keys : List KeyId} {W : World}
     {i : Nat} {r : Req} {effs : List Effect} {acc : Accepted}
     (hinv : Inv sh W) (hz : z.Lawful) (hk : srv.key ∉ keys)
     (hknown : ReqKnown E (W.toks sh z srv.key) keys r) (hnf : r.who.NulFreeDomain) (hnm : NulFree r.method)
     (h : recover sh E z D srv (W.caches i) r = (effs, .ok acc)) : Sound sh E z srv W r acc := by
-  unfold recover recoverObs at h
-  simp only [Req.observe] at h
-  cases hc : openCursorObs sh.strictB64 z srv.key (aad r.who) srv.ttl r.now (E.observe r.cursor) with
-  | ok x =>
-    obtain ⟨st, cid⟩ := x
-    rw [hc] at h; simp only at h
-    obtain ⟨cm, hcm, c1, c2, c3, c4, c5, c6⟩ := openCursor_sound hz hk hinv.wfc hknown.1 hnf hc
-    obtain ⟨km1, hkm1, o1, o2, o3⟩ := hinv.owner cm hcm
-    cases hl : W.caches i cid (cacheIdent r.who) with
-    | some e =>
-      rw [hl] at h; simp only at h
-      obtain ⟨hacc, hme⟩ := finishRecover_ok h
-      obtain ⟨km0, hkm0, k1, k2, k3, k4⟩ := hinv.cache i cid _ e hl
-      have heq : km0 = km1 := hinv.distinct km0 hkm0 km1 hkm1 (by rw [k1, o1, c5])
+  unfold recover at h
+  obtain ⟨st, cid, hc, hcase⟩ := recoverObs_ok h
+  have hc' : openCursorObs sh.strictB64 z srv.key (aad r.who) srv.ttl r.now (E.observe r.cursor) = .ok (st, cid) := hc
+  obtain ⟨cm, hcm, c1, c2, c3, c4, c5, c6⟩ := openCursor_sound hz hk hinv.wfc hknown.1 hnf hc'
+  obtain ⟨km1, hkm1, o1, o2, o3⟩ := hinv.owner cm hcm
+  rcases hcase with ⟨e, hl, hacc, hme, _⟩ | ⟨hl, e, hr, hacc⟩
+  · have hl' : W.caches i cid (cacheIdent r.who) = some e := hl
+    have hme' : sh.methodBound = true → e.method = r.method := hme
+    obtain ⟨km0, hkm0, k1, k2, k3, k4⟩ := hinv.cache i cid _ e hl'
+    have heq : km0 = km1 := hinv.distinct km0 hkm0 km1 hkm1 (by rw [k1, o1, c5])
+    subst heq
+    subst hacc
+    refine ⟨cm, hcm, km0, hkm0, ?_⟩
+    exact SoundFor.mk c1 c2 c3 c4 c5 c6 k1 (by rw [o2, c3]) k3
+      (fun hb => ⟨by rw [k4 hb]; exact hme' hb, by rw [← o3 hb, k4 hb]; exact hme' hb, hme' hb⟩)
+      (fun hh => by cases hh)
+  · obtain ⟨co, body, hcall, ho, he⟩ := resolveCallFromToken_ok hr
+    have hcall' : r.call.map E.observe = some co := hcall
+    cases hrc : r.call with
+    | none => rw [hrc] at hcall'; cases hcall'
+    | some cw =>
+      rw [hrc] at hcall'
+      simp only [Option.map, Option.some.injEq] at hcall'
+      subst hcall'
+      have ho' : openCallObs sh.strictB64 z srv.key (callAad sh.methodBound r.method r.who) srv.ttl r.now (E.observe cw)
+          = .ok (cid, body) := ho
+      obtain ⟨km, hkm, d1, d2, d3, d4, d5, d6, d7⟩ :=
+        openCall_sound hz hk hinv.wfk (fun t ht => hknown.2 cw t hrc ht) hnf hnm ho'
+      have heq : km = km1 := hinv.distinct km hkm km1 hkm1 (by rw [d5, o1, c5])
       subst heq
       subst hacc
-      refine ⟨cm, hcm, km0, hkm0, ?_⟩
-      exact SoundFor.mk c1 c2 c3 c4 c5 c6 k1 (by rw [o2, c3]) k3
-        (fun hb => ⟨by rw [k4 hb]; exact hme hb, by rw [← o3 hb, k4 hb]; exact hme hb, hme hb⟩)
-        (fun hh => by cases hh)
-    | none =>
-      rw [hl] at h; simp only at h
-      unfold resolveCallFromToken at h
-      simp only [Option.map] at h
-      cases hcall : r.call with
-      | none => rw [hcall] at h; simp at h
-      | some cw =>
-        rw [hcall] at h; simp only at h
-        cases ho : openCallObs sh.strictB64 z srv.key (callAad sh.methodBound r.method r.who) srv.ttl r.now (E.observe cw) with
-        | ok y =>
-          obtain ⟨cid', body⟩ := y
-          rw [ho] at h; simp only at h
-          by_cases hpair : cid' = cid
-          · by_cases hdec : D.callDecodes body = true
-            · simp only [hpair, ne_eq, not_true_eq_false, if_false, hdec, if_true] at h
-              obtain ⟨hacc, _⟩ := finishRecover_ok h
-              obtain ⟨km, hkm, d1, d2, d3, d4, d5, d6, d7⟩ :=
-                openCall_sound hz hk hinv.wfk (fun t ht => hknown.2 cw t hcall ht) hnf hnm ho
-              have heq : km = km1 := hinv.distinct km hkm km1 hkm1 (by rw [d5, hpair, o1, c5])
-              subst heq
-              subst hacc
-              refine ⟨cm, hcm, km, hkm, ?_⟩
-              exact SoundFor.mk c1 c2 c3 c4 c5 c6 (by rw [d5, hpair]) d3 d6
-                (fun hb => ⟨d4 hb, by rw [← o3 hb]; exact d4 hb, rfl⟩)
-                (fun _ => ⟨cw, hcall, d1, d2, d7⟩)
-            · simp [hpair, hdec] at h
-          · simp [hpair] at h
-        | reject _ => rw [ho] at h; simp at h
-        | missingCall => rw [ho] at h; simp at h
-        | decodeError => rw [ho] at h; simp at h
-        | crash => rw [ho] at h; simp at h
-  | reject _ => rw [hc] at h; simp at h
-  | missingCall => rw [hc] at h; simp at h
-  | decodeError => rw [hc] at h; simp at h
-  | crash => rw [hc] at h; simp at h
-
+      have hem : e.method = r.method := by rw [he]; rfl
+      have heb : e.body = body := by rw [he]
+      refine ⟨cm, hcm, km, hkm, ?_⟩
+      exact SoundFor.mk c1 c2 c3 c4 c5 c6 d5 d3 (by rw [d6, heb])
+        (fun hb => ⟨d4 hb, by rw [← o3 hb]; exact d4 hb, hem⟩)
+        (fun _ => ⟨cw, hrc, d1, d2, d7⟩)
 
 theorem inv_empty (sh : Shape) : Inv sh World.empty :=
   { wfc := by intro cm h; cases h
